@@ -167,6 +167,24 @@ class Prober:
             t2 = str(out)            # what was reported does not change when it is printed again
             if t1 != t2 and len(self.unstable) < 50:
                 self.unstable.append((name, list(S), list(E), t1, t2))
+            self.ncalls = getattr(self, 'ncalls', 0) + 1
+            if self.ncalls % 7 == 0:
+                # the same records handed over read-into style: ONE buffer the caller refills for every record, decoded
+                # through a memoryview of it - an event is a copy of its record, not a window onto the buffer
+                from pykdebugparser.kevent import from_kd_buf
+                buf = bytearray(64)
+                view = memoryview(buf)
+                p2 = new_parser(w)
+                out2 = None
+                for k, a in enumerate(stream, 1):
+                    buf[:] = w.concrete_bytes(a, k)
+                    r = p2.feed(from_kd_buf(view if self.ncalls % 2 else buf))
+                    if r is not None and k == len(stream):
+                        out2 = r
+                buf[:] = bytes(64)
+                t3 = None if out2 is None else str(out2)
+                if t3 != t1 and len(self.unstable) < 50:
+                    self.unstable.append((name, list(S), list(E), t1, 'records read into one reused buffer: %r' % (t3,)))
             return t1
         except Exception as ex:
             if self.reraise:
